@@ -31,8 +31,9 @@ func init() {
 		Level: "model_checking",
 		Rule: "states = scenarios (shareable-literal programs; operations x kinds of shared primitive values) x immutability snapshots; transitions = scheduling points executed over all interleavings up to the reported preemption bound of 2..3 runtimes sharing one Program / the same values (every VM instruction, file.File mutex operation and lazy-scan hook is a scheduling point); " +
 			"traces = complete schedules whose per-runtime results were compared with the isolated result (and, in the -race build, judged by the race detector); a scenario is non-trivial when it compiled, ran and at least two runtimes really executed interleaved instructions on the shared data",
-		Run:    run,
-		Replay: replay,
+		Run:      run,
+		Replay:   replay,
+		Prebuild: func() { startBuilds().cleanup() },
 	})
 }
 
